@@ -717,6 +717,10 @@ func runIfaces(rng *rand.Rand, prog int, per int, out *progOut) {
 						out.Failures = append(out.Failures, failOut{"tars2go/gen/call-wrong-function", fmt.Sprintf("%s: the proxy invoked %q", where, lb.sawFunc)})
 						return
 					}
+					if h.called == "" && err != nil {
+						out.Failures = append(out.Failures, failOut{"tars2go/gen/call-fails", fmt.Sprintf("%s: %v", where, err)})
+						return
+					}
 					if h.called != fn.Wire {
 						out.Failures = append(out.Failures, failOut{"tars2go/gen/call-wrong-function", fmt.Sprintf("%s: the dispatcher called implementation method %q (error %v)", where, h.called, err)})
 						return
